@@ -890,3 +890,95 @@ func init() {
 			return out
 		}})
 }
+
+// PEEKSIZE — a Peek never asks for more than the reader holds.
+//
+// `Peek(n)` of a bufio.Reader fails with ErrBufferFull when n exceeds the size of its buffer, whatever the stream
+// contains: a decoder that peeks a length taken from the data (`r.Peek(size)` for a length-prefixed JSON block) or the
+// length of the destination (`r.Peek(len(c))`) works with the in-memory buffer and with short objects, and refuses
+// valid streams as soon as the object is longer than the reader's buffer.
+//
+// Rule: the argument of every Peek on a buffer.Reader / bufio.Reader is a constant, or a variable that the function
+// bounds by the Size() (or Buffered()) of that reader (one of its definitions is such a call).
+func scanPeekSize(c *core.Ctx) []ob {
+	var out []ob
+	n := 0
+	c.FuncDecls(func(pk *packages.Package, file *ast.File, fd *ast.FuncDecl) {
+		if fd.Body == nil || fileIsTestSupport(c.Program, fd.Pos()) || inExamples(pk) {
+			return
+		}
+		info := pk.TypesInfo
+		fkey := core.FuncKey(pk, fd)
+		ast.Inspect(fd.Body, func(x ast.Node) bool {
+			call, ok := x.(*ast.CallExpr)
+			if !ok || len(call.Args) != 1 {
+				return true
+			}
+			sel, ok := unparen(call.Fun).(*ast.SelectorExpr)
+			if !ok || sel.Sel.Name != "Peek" {
+				return true
+			}
+			if t := info.TypeOf(sel.X); t == nil || !(isReaderType(t) || isNamedType(deref(t), "bufio", "Reader")) {
+				return true
+			}
+			n++
+			arg := unparen(call.Args[0])
+			if tv, ok := info.Types[arg]; ok && tv.Value != nil {
+				return true
+			}
+			bounded := false
+			if id, ok := arg.(*ast.Ident); ok {
+				o := info.Uses[id]
+				ast.Inspect(fd.Body, func(y ast.Node) bool {
+					as, ok := y.(*ast.AssignStmt)
+					if !ok || len(as.Lhs) != len(as.Rhs) {
+						return true
+					}
+					for i, l := range as.Lhs {
+						lid, ok := l.(*ast.Ident)
+						if !ok {
+							continue
+						}
+						lo := info.Defs[lid]
+						if lo == nil {
+							lo = info.Uses[lid]
+						}
+						if lo != o {
+							continue
+						}
+						ast.Inspect(as.Rhs[i], func(z ast.Node) bool {
+							if c2, ok := z.(*ast.CallExpr); ok {
+								if s2, ok := unparen(c2.Fun).(*ast.SelectorExpr); ok && (s2.Sel.Name == "Size" || s2.Sel.Name == "Buffered") && exprString(s2.X) == exprString(sel.X) {
+									bounded = true
+								}
+							}
+							return !bounded
+						})
+					}
+					return true
+				})
+			}
+			if bounded {
+				return true
+			}
+			out = append(out, withProps(violOb("PEEKSIZE", fmt.Sprintf("PEEKSIZE:%s#%s", fkey, exprString(call)), c.Rel(call.Pos()), fmt.Sprintf("%s peeks %s bytes, a length that is neither a constant nor bounded by the size of the reader: a bufio.Reader whose buffer is smaller fails with ErrBufferFull on a valid stream", fkey, exprString(arg))), "C08"))
+			return true
+		})
+	})
+	c.Stats["peeksize_calls"] = n
+	out = append(out, withProps(okOb("PEEKSIZE", "PEEKSIZE:module", "", fmt.Sprintf("%d Peek calls examined", n), true), "C08"))
+	return out
+}
+
+func init() {
+	core.Register(&core.Rule{Name: "PEEKSIZE", Props: []string{"C08"},
+		Doc: "the argument of every Peek on a buffer.Reader/bufio.Reader is a constant or a variable bounded by the Size()/Buffered() of that reader",
+		Run: func(c *core.Ctx) []ob {
+			out := scanPeekSize(c)
+			if !c.IsFixture {
+				out = append(out, core.Floor("PEEKSIZE", []string{"C08"}, "Peek calls", c.Stats["peeksize_calls"], 9)...)
+				out = append(out, control(c, "PEEKSIZE", scanPeekSize, "lvfixture.readBlock")...)
+			}
+			return out
+		}})
+}
